@@ -72,6 +72,7 @@ macro_rules! systems {
             "ds.list" => sys_ds::ListSys,
             "ds.heap" => sys_ds::HeapSys,
             "burst" => sys_burst::Sys,
+            "burstscript" => sys_burst::Script,
             "mutex.local" => sys_mutex::Sys<NL>,
             "mutex.std" => sys_mutex::Sys<PL>,
             "sem.local" => sys_sem::Sys<sys_sem::Borrowed<NL>>,
